@@ -349,8 +349,19 @@ def fork_side(inp):
 
 def judge_fork(ctx, rng, code, pred, nscripts, prefork=None):
     functions, parsing, _, _, _ = env.mods()
-    name = f'OP_FORK{code}'
-    aliases = [f'FK{code}', f'OP_FK{code}']
+    # names and aliases an application might pick: any letters after OP_,
+    # also ones that begin with the letters of the prefix itself, or that
+    # contain the name of a built-in instruction
+    stem = rng.choice(('FORK', 'FORK', 'PAIRS_EQUAL_VERIFY', 'ORDERED',
+                       'POP_EQUAL_VERIFY', 'OPPOSITE', '_PRIVATE', 'PUSH_ALL',
+                       'CHECK_ALL_EQUAL_VERIFY', 'NOPE', 'P', 'O_P', 'X0',
+                       'DUP_VERIFY', 'OP_OP'))
+    name = f'OP_{stem}{code}'
+    al = rng.choice(('FK', 'FK', 'PEV', 'OPX', 'P', '_F', 'CAEV', 'O', 'POP',
+                     'PO_'))
+    aliases = [f'{al}{code}', f'OP_{al}K{code}']
+    ctx.tab('fork_name_stem', stem)
+    ctx.tab('fork_alias_stem', al)
     # an application may keep the retired NOP name as an alias, so that old
     # sources go on compiling on the upgraded VM (to the same bytes)
     nop_alias = rng.random() < 0.5
